@@ -366,6 +366,7 @@ func ruleC20(c *Check, p *Prog) {
 		strings.Join(rprobs, "; "))
 	// R-DEFAULT-DOC
 	checkGenFlags(c, p, x, sum)
+	checkFlagOrder(c, p, pkgGen, "rdgen.main")
 }
 
 // resolvedOut: t is the -o value itself or filepath.Abs / filepath.Clean applied to it (the same directory).
